@@ -31,6 +31,8 @@ type cfg struct {
 	maxNoDup int   // depth used when the dump is unavailable
 	alt      bool  // mutate through Put / Delete instead of Update
 	faults   bool  // updates/deletes with an injected storage read error are part of the alphabet
+	proofOp  bool  // GetBlockProof on the live trie is an event (only while nothing is pending)
+	gcFault  bool  // "DeleteNodes while the storage write fails" is an event
 	snap     []int // collapse levels of the snapshot op (CopyRoot); enables updates/deletes through the snapshot
 }
 
@@ -56,6 +58,12 @@ func (c cfg) ops() []Op {
 	}
 	if c.c13 {
 		ops = append(ops, Op{K: 'P'}, Op{K: 'B'}, Op{K: 'T'}, Op{K: 'Q'})
+	}
+	if c.proofOp {
+		ops = append(ops, Op{K: 'p'})
+	}
+	if c.gcFault {
+		ops = append(ops, Op{K: 'g'})
 	}
 	if c.faults {
 		for _, k := range c.keys {
@@ -124,6 +132,19 @@ func runCfg(rep *rt.Report, c cfg, deadline time.Time, classify func(w *World, l
 				}
 				return snap
 			}
+			if k == 'p' {
+				// reading proofs from a trie with uncommitted changes clears its dirty flags (outside the properties)
+				pending := false
+				for _, x := range h {
+					switch ops[x].K {
+					case 'U', 'X', 'u', 'x':
+						pending = true
+					case 'C', 'B', 'T', 'Q':
+						pending = false
+					}
+				}
+				return !pending
+			}
 			if k != 'L' && k != 'P' && k != 'B' && k != 'T' && k != 'Q' {
 				return true
 			}
@@ -184,6 +205,13 @@ func runCfg(rep *rt.Report, c cfg, deadline time.Time, classify func(w *World, l
 			if f := Observe(w.T, w.M, !c.c11); f != "" {
 				return classify(w, last, f)
 			}
+			if lc := w.lastCommit(); lc != nil && (c.c11 || c.c13 || c.proofOp) && (last.K == 'C' || last.K == 'G' || last.K == 'g' || last.K == 'U' || last.K == 'X' || last.K == 'p' || last.K == 'L') {
+				// a second trie opened on the last committed root through the SAME hash-node object the live trie was
+				// (re)loaded from: whatever the live trie did since, that root still reads what was committed
+				if f := Observe(w.reopenShared(*lc), lc.m, true); f != "" {
+					return classify(w, last, fmt.Sprintf("a second trie opened on the last committed root %x through the hash-node object shared with the live trie: %s", lc.root[:6], f))
+				}
+			}
 			if w.Snap != nil {
 				if f := Observe(w.Snap, w.SnapM, true); f != "" {
 					return classify(w, last, "the snapshot taken with CopyRoot (content {"+modelKey(w.SnapM)+"}): "+f)
@@ -231,6 +259,8 @@ func C09(tier rt.Tier) int {
 			// one and two keys, much deeper: long alternations of rewrite / commit / collect / reload
 			{name: "1key-very-deep", keys: []int{0}, vals: []string{"a", "b"}, levels: []int{0}, gc: true, reload: true, depth: 13, maxNoDup: 7},
 			{name: "2keys-very-deep", keys: []int{0, 4}, vals: []string{"a", "b"}, levels: []int{1}, gc: true, reload: true, depth: 10, maxNoDup: 6},
+			// proofs read from the live trie between reloads and updates (all tries of one root share one hash-node object)
+			{name: "proofs-between-reloads", keys: []int{0, 1, 4}, vals: []string{"a", "b"}, levels: []int{0, 1}, reload: true, proofOp: true, depth: 6, maxNoDup: 4},
 			// operations that fail with a storage read error (collapsed nodes must be loaded) leave the trie as it was
 			{name: "3keys-read-faults", keys: []int{0, 1, 4}, vals: []string{"a", "b"}, levels: []int{0, 1}, reload: true, faults: true, depth: 5, maxNoDup: 4},
 			// the other exported mutators
